@@ -224,7 +224,7 @@ func init() {
 	core.Register(&core.Check{
 		ID:    "C07",
 		Level: "exploration",
-		Rule: "syntax trees: (a) every expression of depth <= 2 over the full operator set (17 binary, 4 unary, both index forms, call, array literal, function literal) and the leaves 1, a; (b, thorough) depth 3 over one operator per precedence level, unary and indexing; (c) every statement form in every body position (then, else, while, for, function body, block element) one-line and braced to nesting 2, dangling-else shapes included. " +
+		Rule: "(string literals of <= 3 characters over {a, quote, line break, blank, ;, {} in six positions; sums, mixed-operator chains, list literals, argument lists, blocks, function bodies, else-if chains and loops of 50..1000 members) + syntax trees: (a) every expression of depth <= 2 over the full operator set (17 binary, 4 unary, both index forms, call, array literal, function literal) and the leaves 1, a; (b, thorough) depth 3 over one operator per precedence level, unary and indexing; (c) every statement form in every body position (then, else, while, for, function body, block element) one-line and braced to nesting 2, dangling-else shapes included. " +
 			"Each tree is printed by the documented rules in four styles (minimal, full parentheses, redundant parentheses, all braces) and, for the smaller families, in every single-site layout deviation (extra blank/tab in any gap, blank line or comment at any line break, line break after '[' or ',' of an array literal, trailing newline/comment); parser.Parse of each text must return exactly that tree (reflect.DeepEqual). distinct = distinct tree; non-trivial = trees with at least one operator or compound statement",
 		Assumptions: []string{
 			"the printer (harness/internal/ast) encodes the documented grammar: precedence table, left associativity, unary over index-level terms, braces where a one-line body would be continued by the preceding expression or capture a following else",
@@ -275,6 +275,53 @@ func c07Run(w *core.W) {
 	w.Family("expressions-depth2")
 	if !c07Exprs(w, emit) {
 		return
+	}
+	// string literals: every text of at most 3 characters over {a, quote, line break, blank, ;, {} (the two documented
+	// escapes and the characters that mean something outside a string) in five positions
+	w.Family("string-literals")
+	{
+		chars := []string{"a", "\"", "\n", " ", ";", "{"}
+		texts := []string{""}
+		for n, level := 0, []string{""}; n < 3; n++ {
+			next := []string{}
+			for _, t := range level {
+				for _, c := range chars {
+					next = append(next, t+c)
+				}
+			}
+			texts = append(texts, next...)
+			level = next
+		}
+		for _, t := range texts {
+			for _, e := range []T{S(t), Asg("x", S(t)), Bin("+", S(t), S(t)), L(S(t), I(1)), Call("f", S(t)), Ix(S(t), I(0))} {
+				if !emit(e, false) {
+					return
+				}
+			}
+		}
+	}
+	// long inputs: the parser's token buffer, snapshot stack and recursion at 50..1000 operands / elements / statements
+	w.Family("scaling")
+	for _, n := range []int{50, 100, 127, 128, 129, 130, 200, 255, 256, 257, 300, 513, 1000} {
+		var sum, mixed T = I(1), N("a")
+		elems, stmts, args := []T{}, []T{}, []T{}
+		for i := 1; i < n; i++ {
+			sum = Bin("+", sum, I(1))
+			mixed = Bin([]string{"+", "*", "-", "<", "&"}[i%5], mixed, I(i%7))
+			elems = append(elems, I(i%10))
+			args = append(args, N("a"))
+			stmts = append(stmts, Asg("x", Bin("+", N("x"), I(i%10))))
+		}
+		var chain T = I(0)
+		for i := 0; i < n/4; i++ {
+			chain = IfE(Bin("<", N("a"), I(i%10)), I(i%10), chain)
+		}
+		for _, t := range []T{sum, Asg("x", sum), mixed, L(elems...), Bin("+", L(elems...), L(I(1))), Call("f", args...), Blk(stmts...),
+			Fn(Ps("p"), Blk(stmts...)), chain, Wh(B(true), Blk(stmts...)), Blk(Asg("y", sum), Asg("z", L(elems...)), Call("f", args...))} {
+			if !emit(t, false) {
+				return
+			}
+		}
 	}
 	if w.Thorough() {
 		w.Family("expressions-depth3-representatives")
